@@ -21,7 +21,7 @@ claimed = {
  "C09": ("Proved: precision rule (a receiver with precision 0 takes the operands' maximum, otherwise keeps its own), mode unchanged, operands unchanged (all fields and mantissa words) for every operation under contract (arithmetic, FMA, Sqrt, setters, SetInt, GobDecode), all aliasings.",
          'operations not under contract: SetRat, SetFloat*, SetString/Parse'),
  "C10": ("Corollary: every result-determining postcondition (C01/C02/C03 clauses) is proved with pointers, slice headers, stale buffer contents and the receiver's previous value unconstrained, so results are functions of operand values, precision and mode only.", "same assumed clauses as C01"),
- "C14": ("Proved: Int64/Uint64 return the integer part gT of |x| (gT = floor(M/10^d) stated without division through the ghost remainder of dec.shr, or M*10^k) with the documented saturation at the type bounds, 0/Above for negatives (Uint64), the special values, and accuracy Exact iff MinPrec <= exp where MinPrec is 19L minus the number of trailing zero digits (word-level characterisation tz); IsInt and MinPrec likewise; toUint64 exact or overflow. SetInt64/SetUint64/NewDecimal/setBits64 store the argument rounded once: roundspec(z, |x|*10^gs, gL, exp + 19*gL - gs) with the normalisation witnesses gL, gs pinned by ensures[norm] (exact when the precision allows, precision 0 becomes DefaultDecimalPrec), sign, zero, saturation when the exponent leaves the range, no wrap of the int64 exponent sum, validity. SetInt stores |x| rounded once as well (same clause over uf_abs(x) = the value of x.Bits() in base 2^64): setNat (radix conversion by repeated divWVW) is verified against V(result) + gR*B^len(z) == V2(x), divWVW against long division in base 2^64. Not machine-checked: the step from `trailing zero digits >= d` to `remainder == 0` (divisibility of M by 10^d); the two assumed clauses of setNat (gR == 0 and the length bound: the destination sized by a float64 estimate is long enough); math/big's BitLen/Sign/Bits as uninterpreted functions of the argument. The values produced by Int/Rat/SetRat (decToNat, math/big arithmetic) are checked by BOUNDED execution only (big-conversions, evidence.coverage.bounded).",
+ "C14": ("Proved: Int64/Uint64 return the integer part gT of |x| (gT = floor(M/10^d) stated without division through the ghost remainder of dec.shr, or M*10^k) with the documented saturation at the type bounds, 0/Above for negatives (Uint64), the special values, and accuracy Exact iff MinPrec <= exp where MinPrec is 19L minus the number of trailing zero digits (word-level characterisation tz); IsInt and MinPrec likewise; toUint64 exact or overflow. SetInt64/SetUint64/NewDecimal/setBits64 store the argument rounded once: roundspec(z, |x|*10^gs, gL, exp + 19*gL - gs) with the normalisation witnesses gL, gs pinned by ensures[norm] (exact when the precision allows, precision 0 becomes DefaultDecimalPrec), sign, zero, saturation when the exponent leaves the range, no wrap of the int64 exponent sum, validity. SetInt stores |x| rounded once as well (same clause over uf_abs(x) = the value of x.Bits() in base 2^64): setNat (radix conversion by repeated divWVW) is verified against V(result) + gR*B^len(z) == V2(x), divWVW against long division in base 2^64. Not machine-checked: the step from `trailing zero digits >= d` to `remainder == 0` (divisibility of M by 10^d); the two assumed clauses of setNat (gR == 0 and the length bound: the destination sized by a float64 estimate is long enough); math/big's BitLen/Sign/Bits as uninterpreted functions of the argument. Int: accuracy (Exact iff nothing discarded, else the sign of the discarded part), nil result for infinities, and that the magnitude handed to math/big is the integer part of |x| (intMant proved; the radix conversion decToNat is assumed to preserve the value). The values produced by Int/Rat/SetRat through decToNat and math/big arithmetic are checked by BOUNDED execution only (big-conversions, evidence.coverage.bounded).",
          'one paper step (tz >= d iff remainder 0); setNat.ensures[complete], [size] assumed; math/big accessors assumed; Int/Rat/SetRat values bounded only'),
  "C16": ("Proved: ucmp (digit-wise comparison with zero padding) returns the order of the exact magnitudes (loop invariants on the compared prefixes, lifted to values with V_eq_shift/V_pos/V_zero and explicit product facts); different exponents decide by normalisation; Cmp is the sign of x-y over {-Inf, finite, 0, +Inf}; ord/Sign/Signbit/IsZero/IsInf consistent. Antisymmetry and transitivity follow from `Cmp == sign(x-y)`; they are not separate obligations.", "operand size bounds only"),
  "C17": ("Proved: GobDecode is total on arbitrary bytes (every index/slice/length obligation), returns an error with the receiver's scalars untouched or leaves valid(z) (canonical form); a receiver with non-zero precision keeps precision and mode and gets the transmitted value rounded (rounded/kept clauses); empty input gives the zero value; GobEncode never panics on a valid Decimal, does not modify it, and writes version, header byte, precision, exponent and the mantissa words big-endian (dec.bytes proved byte by byte; bigEndianWord verified; dec.setBytes reads the same layout back). GobDecode accepts every byte string of the shape GobEncode produces (ensures[accepts] over gobwf). The round trip itself is the contract of the hook verifGobRoundTrip (hooks_verif.go, build tag verif): GobEncode followed by GobDecode into a zero-value Decimal returns no error and reproduces precision, mode, accuracy, form, sign, exponent and every mantissa word - proved from the contracts of the two methods.",
